@@ -124,7 +124,9 @@ func (d *UpGrid) Cases(tier string) []GridCase {
 	var out []GridCase
 	flags := []string{"notary=absent", "notary=false", "notary=true/ballots=absent", "notary=true/ballots=empty", "notary=true/ballots=stale", "notary=true/ballots=fresh", "notary=false/ballots=fresh",
 		// several ballots, the live one not last / not first (votes refresh a ballot in place, so list order is not age order)
-		"notary=true/ballots=fresh-then-stale", "notary=true/ballots=stale-fresh-stale"}
+		"notary=true/ballots=fresh-then-stale", "notary=true/ballots=stale-fresh-stale",
+		// the 20-block boundary of "pending": a ballot exactly 20 blocks old still counts, one of 21 does not
+		"notary=true/ballots=age20", "notary=true/ballots=age21"}
 	data := map[string][]string{
 		"balance":   {"unprefixed", "prefixed", "mixed", "empty", "unprefixed-every-first-byte"},
 		"container": {"unprefixed", "prefixed", "mixed", "unprefixed-every-first-byte"},
@@ -186,7 +188,7 @@ func (d *UpGrid) Eval(x *Exec, root *Node, gc GridCase) GridResult {
 	put := func(k, v []byte) { puts = append(puts, kvPut{k, v}) }
 	hasFlag := strings.Contains(c.Variant, "notary=false") || strings.Contains(c.Variant, "notary=true")
 	notaryTrue := strings.Contains(c.Variant, "notary=true")
-	fresh := strings.Contains(c.Variant, "ballots=fresh")
+	fresh := strings.Contains(c.Variant, "ballots=") && (strings.Contains(c.Variant[strings.Index(c.Variant, "ballots="):], "fresh") || strings.Contains(c.Variant, "ballots=age20"))
 	// flags exist in storages written by versions before 0.17.0 only
 	legacyFlags := c.V < 17000
 	if legacyFlags && hasFlag {
@@ -201,10 +203,6 @@ func (d *UpGrid) Eval(x *Exec, root *Node, gc GridCase) GridResult {
 		switch {
 		case !votingContracts()[c.Contract]:
 			// this contract never collected votes: no ballots in its storage
-		case strings.Contains(c.Variant, "ballots=empty"):
-			put([]byte("ballots"), ser(stackitem.NewArray(nil)))
-		case strings.Contains(c.Variant, "ballots=stale"):
-			put([]byte("ballots"), mkBallots(0))
 		case strings.Contains(c.Variant, "ballots=fresh-then-stale"), strings.Contains(c.Variant, "ballots=stale-fresh-stale"):
 			one := func(id string, height int64) stackitem.Item {
 				return stackitem.NewStruct([]stackitem.Item{stackitem.Make([]byte(id)), stackitem.Make([]any{[]byte{2, 3}}), stackitem.Make(height)})
@@ -214,6 +212,14 @@ func (d *UpGrid) Eval(x *Exec, root *Node, gc GridCase) GridResult {
 				l = []stackitem.Item{one("idC", 0), one("idA", int64(root.H)-1), one("idB", 0)}
 			}
 			put([]byte("ballots"), ser(stackitem.NewArray(l)))
+		case strings.Contains(c.Variant, "ballots=empty"):
+			put([]byte("ballots"), ser(stackitem.NewArray(nil)))
+		case strings.Contains(c.Variant, "ballots=stale"):
+			put([]byte("ballots"), mkBallots(0))
+		case strings.Contains(c.Variant, "ballots=age20"):
+			put([]byte("ballots"), mkBallots(int64(root.H)-1-20))
+		case strings.Contains(c.Variant, "ballots=age21"):
+			put([]byte("ballots"), mkBallots(int64(root.H)-1-21))
 		case fresh:
 			put([]byte("ballots"), mkBallots(int64(root.H)-1))
 		}
